@@ -173,6 +173,64 @@ type skFunc struct {
 	retInh   []string          // ... and the options that action inherits from the receiver
 	retBad   bool              // ... unless its returns disagree
 	lits     int             // closures invoked in place, numbered
+	scopes   []map[string]skSaved
+}
+
+// lexical scopes: a name declared (:= / var) inside a nested block, or in the init statement of
+// an if / for / switch, shadows the outer variable of that name; what is known about the outer
+// one comes back when the block ends
+type skSaved struct {
+	errVar, hasErrVar, nonNil, hasNonNil bool
+	class, boolVar                      string
+	hasClass, hasBool                   bool
+}
+
+func (f *skFunc) pushScope() { f.scopes = append(f.scopes, map[string]skSaved{}) }
+
+func (f *skFunc) popScope() {
+	top := f.scopes[len(f.scopes)-1]
+	f.scopes = f.scopes[:len(f.scopes)-1]
+	for n, sv := range top {
+		delete(f.errVars, n)
+		delete(f.nonNil, n)
+		delete(f.class, n)
+		delete(f.boolVars, n)
+		if sv.hasErrVar {
+			f.errVars[n] = sv.errVar
+		}
+		if sv.hasNonNil {
+			f.nonNil[n] = sv.nonNil
+		}
+		if sv.hasClass {
+			f.class[n] = sv.class
+		}
+		if sv.hasBool {
+			f.boolVars[n] = sv.boolVar
+		}
+	}
+}
+
+func (f *skFunc) declare(n string) {
+	if len(f.scopes) == 0 || n == "_" {
+		return
+	}
+	top := f.scopes[len(f.scopes)-1]
+	if _, ok := top[n]; ok {
+		return
+	}
+	var sv skSaved
+	sv.errVar, sv.hasErrVar = f.errVars[n]
+	sv.nonNil, sv.hasNonNil = f.nonNil[n]
+	sv.class, sv.hasClass = f.class[n]
+	sv.boolVar, sv.hasBool = f.boolVars[n]
+	top[n] = sv
+}
+
+func (f *skFunc) scoped(l []ast.Stmt) []skNode {
+	f.pushScope()
+	out := f.block(l)
+	f.popScope()
+	return out
 }
 
 // isSelf: the identifier denotes the action the function runs on (its receiver, or, in a
@@ -264,7 +322,7 @@ func (f *skFunc) expr(e ast.Expr) []skNode {
 		return append(l, r...)
 	case *ast.FuncLit:
 		// a closure that is not the operand of `go`: must be effect-free
-		if body := f.block(v.Body.List); skHasCall(body) {
+		if body := f.scoped(v.Body.List); skHasCall(body) {
 			return []skNode{skUnknown("closure with effects")}
 		}
 		return nil
@@ -616,11 +674,22 @@ func (f *skFunc) block(l []ast.Stmt) []skNode {
 	return out
 }
 
+// noErrorCall: a builtin (make, append, len, ...) or a conversion: its result is no error value
+func (f *skFunc) noErrorCall(c *ast.CallExpr) bool {
+	switch fn := c.Fun.(type) {
+	case *ast.Ident:
+		return skelBuiltins[fn.Name] || f.typeName[fn.Name]
+	case *ast.ArrayType, *ast.MapType, *ast.ChanType, *ast.FuncType, *ast.InterfaceType, *ast.StarExpr, *ast.ParenExpr:
+		return true
+	}
+	return false
+}
+
 // bind records what an assignment tells about its left-hand sides
 func (f *skFunc) bind(lhs, rhs []ast.Expr) {
 	if len(rhs) == 1 {
 		// the last result of a call is (by convention) the error
-		if _, isCall := rhs[0].(*ast.CallExpr); isCall {
+		if ce, isCall := rhs[0].(*ast.CallExpr); isCall && !f.noErrorCall(ce) {
 			for i, l := range lhs {
 				if id, ok := l.(*ast.Ident); ok {
 					if i == len(lhs)-1 {
@@ -696,6 +765,15 @@ func (f *skFunc) bindBool(lhs, rhs []ast.Expr) {
 	}
 }
 
+// quiet: the nodes of an expression, computed a second time without side effects on the
+// numbering of closures (used to ask whether a call contributes anything)
+func (f *skFunc) quiet(e ast.Expr) []skNode {
+	saved := f.lits
+	out := f.expr(e)
+	f.lits = saved
+	return out
+}
+
 func (f *skFunc) stmt(s ast.Stmt) []skNode {
 	switch v := s.(type) {
 	case nil, *ast.EmptyStmt:
@@ -708,6 +786,13 @@ func (f *skFunc) stmt(s ast.Stmt) []skNode {
 		return append(f.expr(v.Chan), f.expr(v.Value)...)
 	case *ast.AssignStmt:
 		out := append(f.exprs(v.Rhs), f.exprs(v.Lhs)...)
+		if v.Tok == token.DEFINE {
+			for _, l := range v.Lhs {
+				if id, ok := l.(*ast.Ident); ok {
+					f.declare(id.Name)
+				}
+			}
+		}
 		// option of a freshly constructed action: x.Flag = <receiver>.Flag | false
 		if len(v.Lhs) == 1 && len(v.Rhs) == 1 {
 			if sel, ok := v.Lhs[0].(*ast.SelectorExpr); ok {
@@ -785,11 +870,21 @@ func (f *skFunc) stmt(s ast.Stmt) []skNode {
 		}
 		return out
 	case *ast.BlockStmt:
-		return f.block(v.List)
+		return f.scoped(v.List)
 	case *ast.ReturnStmt:
 		f.noteReturn(v)
-		return append(f.exprs(v.Results), skNode{Op: f.returnKind(v)})
+		out := f.exprs(v.Results)
+		kind := f.returnKind(v)
+		if kind == "Return" && f.hasErr && len(v.Results) > 0 {
+			// the error handed back is the result of a call outside the skeleton: nil or not
+			if ce, ok := v.Results[len(v.Results)-1].(*ast.CallExpr); ok && !skHasCall(f.quiet(ce)) {
+				out = append(out, skNode{Op: "Pure"})
+			}
+		}
+		return append(out, skNode{Op: kind})
 	case *ast.IfStmt:
+		f.pushScope()
+		defer f.popScope()
 		out := f.stmt(v.Init)
 		out = append(out, f.expr(v.Cond)...)
 		n := skNode{Op: "If", Cond: f.cond(v.Cond)}
@@ -799,7 +894,7 @@ func (f *skFunc) stmt(s ast.Stmt) []skNode {
 			saved[x] = f.nonNil[x]
 			f.nonNil[x] = true
 		}
-		n.Th = f.block(v.Body.List)
+		n.Th = f.scoped(v.Body.List)
 		for _, x := range proved {
 			f.nonNil[x] = saved[x]
 		}
@@ -817,23 +912,30 @@ func (f *skFunc) stmt(s ast.Stmt) []skNode {
 		}
 		return append(out, n)
 	case *ast.ForStmt:
+		f.pushScope()
+		defer f.popScope()
 		out := f.stmt(v.Init)
 		if c := f.expr(v.Cond); len(c) > 0 {
 			out = append(out, skUnknown("call in a loop condition"))
 		}
-		body := f.block(v.Body.List)
+		body := f.scoped(v.Body.List)
 		body = append(body, f.stmt(v.Post)...)
 		return append(out, skNode{Op: "Loop", Th: body})
 	case *ast.RangeStmt:
 		out := f.expr(v.X)
+		f.pushScope()
+		defer f.popScope()
 		for _, kv := range []ast.Expr{v.Key, v.Value} {
 			if id, ok := kv.(*ast.Ident); ok {
+				if v.Tok == token.DEFINE {
+					f.declare(id.Name)
+				}
 				delete(f.errVars, id.Name)
 				delete(f.class, id.Name)
 				delete(f.boolVars, id.Name)
 			}
 		}
-		return append(out, skNode{Op: "Loop", Th: f.block(v.Body.List)})
+		return append(out, skNode{Op: "Loop", Th: f.scoped(v.Body.List)})
 	case *ast.GoStmt:
 		// goroutines of performInstallCtx / performUpgrade: inlined in program order
 		if fl, ok := v.Call.Fun.(*ast.FuncLit); ok {
@@ -863,7 +965,9 @@ func (f *skFunc) stmt(s ast.Stmt) []skNode {
 		var conds []string
 		for _, cc := range v.Body.List {
 			c := cc.(*ast.CommClause)
+			f.pushScope()
 			alts = append(alts, append(f.stmt(c.Comm), f.block(c.Body)...))
+			f.popScope()
 			cond := "CData"
 			if f.recvFromDone(c.Comm) {
 				cond = `(CFlag "ContextCancelled")`
@@ -872,6 +976,8 @@ func (f *skFunc) stmt(s ast.Stmt) []skNode {
 		}
 		return skAlternativesC(alts, conds)
 	case *ast.SwitchStmt:
+		f.pushScope()
+		defer f.popScope()
 		out := f.stmt(v.Init)
 		if v.Tag == nil {
 			if chain, ok := f.switchChain(v.Body.List); ok {
@@ -1342,7 +1448,7 @@ func (f *skFunc) follow(key, recvClass string, fd *ast.FuncDecl, c *ast.CallExpr
 func (f *skFunc) closure(fl *ast.FuncLit) []skNode {
 	savedErr := f.hasErr
 	f.hasErr = skHasErrResult(fl.Type)
-	body := skDropBranches(skSimplify(f.block(fl.Body.List)))
+	body := skDropBranches(skSimplify(f.scoped(fl.Body.List)))
 	f.hasErr = savedErr
 	if !skHasCall(body) {
 		if skHasReturn(body) {
